@@ -1,2 +1,3 @@
 pub mod singleflight;
 pub mod chunkcache;
+pub mod upload;
